@@ -14,5 +14,9 @@ pub broadcast proof fn lemma_mul_bound64(x: u128, y: u128)
   ensures #[trigger] (x * y) <= 0xFFFF_FFFF_FFFF_FFFE_0000_0000_0000_0001u128
 { assert(x * y <= 0xFFFF_FFFF_FFFF_FFFFu128 * 0xFFFF_FFFF_FFFF_FFFFu128) by(nonlinear_arith)
     requires x <= 0xFFFF_FFFF_FFFF_FFFFu128, y <= 0xFFFF_FFFF_FFFF_FFFFu128; }
-pub broadcast group bits64 { lemma_shr64, lemma_shr64_u32, lemma_mask64, lemma_hilo, lemma_mul_bound64 }
+pub broadcast proof fn lemma_shl64(a: u128)
+  requires a < 0x1_0000_0000_0000_0000u128
+  ensures #[trigger] (a << 64u8) == a * 0x1_0000_0000_0000_0000u128
+{ assert(a < 0x1_0000_0000_0000_0000u128 ==> (a << 64u8) == a * 0x1_0000_0000_0000_0000u128) by(bit_vector); }
+pub broadcast group bits64 { lemma_shl64, lemma_shr64, lemma_shr64_u32, lemma_mask64, lemma_hilo, lemma_mul_bound64 }
 }
